@@ -40,6 +40,17 @@ OBLIGATIONS (name — witness keys)
                                     _generator, reduction, generate_tiles_filtered)
   shape keys = kind ('g' generic | 't' TOAST | 'f' filtered TOAST), depth, accept (list of
   [n,x,y] the filter accepts, None unless kind 'f'), apex ([n,x,y] | None), coordsys.
+  Object history (rt/c13_history.py, which documents the clauses): ONE Pyramid object lives through a program of
+  operations (the three counters, visit_leaves, walk, _generator, reduction, subpyramid(apex), depth changes); every answer
+  is held against the statement for the configuration the object has at that moment, counters against the callbacks made
+  under the same configuration, the tail of the program against freshly built objects of the final configuration, visits
+  after subpyramid(apex) against the part below the apex of the visits the same object made before.
+  rt/history_counts/leaf | live | operations | closed_form | sum_identity | equals_visits | restriction | same_as_fresh | repeatable | raises
+  rt/history_iter/enumeration | same_as_fresh | repeatable | raises
+  rt/history_visit_<serial|parallel>/every_item_once | tile_of_pos | same_as_fresh | repeatable | raises
+  rt/history_walk_<serial|parallel>/callback_multiset | children_first | same_as_fresh | repeatable | raises
+                                  — shape keys (as constructed), program, parallel, seed, delay_ms, step, op + clause keys
+  A history program that does not finish inside the watchdog is counted as undecided (a note), not as a violation.
 
 BOUNDS
   quick   : algebra on all positions n <= 6, is_subtile on all ordered pairs n <= 3 plus random
@@ -51,6 +62,9 @@ BOUNDS
             of depth 2..4 (gap tile at every level incl. one level above the leaves, dead tile beside
             live siblings, three dead siblings, chains, ...) with both worker counts; 40 seeded
             arbitrary (non-hereditary) accept-sets of depth 2..4 with random apexes.
+            Object history: ~830 directed serial programs at depth 2 (every first operation x every apex / repetition /
+            depth change, on 5 pyramid kinds) + 300 seeded random serial programs to depth 4 + 16 programs whose visits /
+            walks use 2 / 3 worker processes (thorough: directed at depth 2 and 3, 3000 random, 100 with worker processes).
   thorough: algebra n <= 8, pairs n <= 4; generate_pos depth 0..8; ALL 2^20 accept-sets at depth 2
             (no apex) + all 17^4 "canonical" accept-sets x every apex level; many more random
             shapes to depth 6.  Parallel walks: the 3^4 family with both worker counts, corner shapes
@@ -67,7 +81,10 @@ import time
 from concurrent.futures import ThreadPoolExecutor
 
 from rt import c13_quadtree as Q
+from rt import c13_history as H
 from rt.common import call_isolated
+
+HIST = ("history_",)
 
 CAP = 5
 
@@ -511,7 +528,10 @@ PAR_WATCHDOG = 40
 
 def par_walk_case(case):
     """One shape: the three counters, a serial walk and a walk with ``case['parallel']`` worker
-    processes (fresh pyramid instance each).  JSON-able result."""
+    processes (fresh pyramid instance each).  JSON-able result.  (A case with a "program" is an
+    object-history case, see rt/c13_history.py.)"""
+    if "program" in case:
+        return H.run_history(case)
     logdir = os.path.join(case["_dir"], "log_%s" % case["id"])
     os.makedirs(logdir, exist_ok=True)
     kind, depth, acc, apex, cs = Q.shape_from_witness(case)
@@ -732,9 +752,16 @@ def run(ctx):
     from rt import c01_batch as B
     par_cases, par_bound = build_par_cases(rng, thorough)
     ctx.bound(par_bound)
+    hrng = H.derived_rng(ctx.seed, "c13")
+    hpar, hpbound = H.parallel_cases(hrng, "counts", thorough, 100 if thorough else 16)
+    for i, hc in enumerate(hpar):
+        hc["id"] = len(par_cases) + i
+    ctx.bound(hpbound)
+    par_batches = [[dict(c) for c in par_cases[i:i + 12]] for i in range(0, len(par_cases), 12)]
+    par_batches += [[dict(c) for c in hpar[i:i + 2]] for i in range(0, len(hpar), 2)]
     par_pool = ThreadPoolExecutor(max_workers=1)
-    par_fut = par_pool.submit(B.dispatch, "rt.c13", "par_walk_case", [dict(c) for c in par_cases], os.path.join(ctx.workdir, "par"),
-                              PAR_WATCHDOG, 12, 16, CAP, 2.0)
+    par_fut = par_pool.submit(B.dispatch, "rt.c13", "par_walk_case", None, os.path.join(ctx.workdir, "par"),
+                              PAR_WATCHDOG, 12, 16, CAP, 2.0, par_batches)
 
     # 4. in-process: exhaustive depth <= 1, corner shapes, random shapes
     def fam(kind, depth, accept, apexes, coordsys="astronomical"):
@@ -783,6 +810,15 @@ def run(ctx):
               "apexes incl. apex level = depth) families" % (done, max_depth))
     _flush(ctx, sink, reported)
 
+    # 4b. (own seeded generator, so that the case streams above stay as they were) object history, serial, in-process
+    hcases, hbound = H.serial_cases(hrng, "counts", thorough, 3000 if thorough else 300)
+    for hc in hcases:
+        ctx.case(H.case_key(hc), nontrivial=H.nontrivial(hc))
+        for obl, w, msg in H.findings(hc, H.run_history(hc), HIST):
+            sink.add(obl, w, msg)
+    ctx.bound(hbound)
+    _flush(ctx, sink, reported)
+
     # 5. collect the sweeps
     unfinished = []
     for fut, job in zip(futs, jobs):
@@ -818,6 +854,17 @@ def run(ctx):
         if o["status"] == "done":
             nproc = max(nproc, o["result"].get("processes", 0))
     ctx.monitor("parallel_walk_worker_processes_seen_in_one_walk", nproc)
+    undecided = 0
+    for hc in hpar:
+        o = par_results.get(hc["id"], {"status": "skipped"})
+        if o["status"] != "done":
+            undecided += 1
+            continue
+        ctx.case(H.case_key(hc), nontrivial=H.nontrivial(hc))
+        for obl, w, msg in H.findings(hc, o["result"], HIST):
+            sink.add(obl, w, msg)
+    if undecided:
+        ctx.note("%d object-history programs with worker processes did not finish inside the watchdog (or were not run): undecided" % undecided)
     if skipped:
         ctx.note("%d parallel walks not run: %d walks had already hit the watchdog" % (skipped, CAP))
     _flush(ctx, sink, reported)
@@ -831,6 +878,8 @@ def run(ctx):
 def replay(obligation, witness):
     sink = _Sink()
     w = witness
+    if w.get("program") is not None:
+        return H.replay(obligation, w, HIST)
     if obligation.startswith("rt/pos_") or obligation.startswith("rt/is_subtile"):
         from toasty.pyramid import Pos, pos_children, pos_parent, is_subtile
         if "deeper" in w:
